@@ -1,2 +1,69 @@
-(* placeholder while the proofs are being written: replaced before the property is registered *)
-Theorem C02_pending : True. Proof. exact I. Qed.
+(* C02 — header-type sections display exactly the values encoded in the log. *)
+From Coq Require Import List NArith ZArith Bool Arith.
+From PV Require Import Base.Bytes Base.Lit Base.Json Base.PelTypes Model.Parse Model.Render Spec.Encode Spec.DocOf Gen.Tables
+                       Proofs.ParseFacts Proofs.RenderFacts.
+Import ListNotations.
+Open Scope N_scope.
+
+Theorem C02_tables_agree :
+  Gen.Tables.creatorIDs = PublishedTables.creatorIDs /\
+  Gen.Tables.subsystemValues = PublishedTables.subsystemValues /\
+  Gen.Tables.eventScopeValues = PublishedTables.eventScopeValues /\
+  Gen.Tables.eventTypeValues = PublishedTables.eventTypeValues /\
+  Gen.Tables.severityValues = PublishedTables.severityValues /\
+  Gen.Tables.actionFlagsValues = PublishedTables.actionFlagsValues /\
+  Gen.Tables.transmissionStates = PublishedTables.transmissionStates.
+Proof. exact tables_agree_headers. Qed.
+Print Assumptions C02_tables_agree.
+
+(* the bytes of each header-type section are read back into exactly the stored field values (any continuation) ... *)
+Theorem C02_ph_fields : forall p n rest, wf_ph p n ->
+  parse_ph_body (ph_len p) (ph_hdr p)
+    (ph_create p ++ ph_commit p ++ be 1 (ph_creator p) ++ be 1 (ph_res0 p) ++ be 1 (ph_res1 p) ++ be 1 (ph_count p) ++
+     be 4 (ph_obmc p) ++ be 8 (ph_cver p) ++ be 4 (ph_plid p) ++ be 4 (ph_eid p) ++ rest) = Some (p, rest).
+Proof. exact parse_ph_body_enc. Qed.
+Print Assumptions C02_ph_fields.
+Theorem C02_uh_fields : forall u rest, wf_uh u ->
+  parse_uh_body (uh_len u) (uh_hdr u)
+    (be 1 (uh_subsys u) ++ be 1 (uh_scope u) ++ be 1 (uh_sev u) ++ be 1 (uh_etype u) ++ be 4 (uh_res4 u) ++
+     be 1 (uh_domain u) ++ be 1 (uh_vector u) ++ be 2 (uh_flags u) ++ be 4 (uh_states u) ++ rest) = Some (u, rest).
+Proof. exact parse_uh_body_enc. Qed.
+Print Assumptions C02_uh_fields.
+Theorem C02_eh_fields : forall e rest, wf_eh e -> parse_eh (enc_eh e ++ rest) = Some (e, rest).
+Proof. exact parse_eh_enc. Qed.
+Print Assumptions C02_eh_fields.
+Theorem C02_mt_fields : forall t rest, wf_mt t -> parse_mt (enc_mt t ++ rest) = Some (t, rest).
+Proof. exact parse_mt_enc. Qed.
+Print Assumptions C02_mt_fields.
+Theorem C02_lp_fields : forall l rest, wf_lp l -> parse_lp (enc_lp l ++ rest) = Some (l, rest).
+Proof. exact parse_lp_enc. Qed.
+Print Assumptions C02_lp_fields.
+
+(* ... and what is displayed for them is the specification's rendering of those values (Spec/DocOf.v):
+   ids and counts numerically, BCD timestamps, text without NUL padding, coded bytes through the published tables,
+   the set of defined action-flag bits that are on, every target partition id *)
+Theorem C02_ph_display : forall e p n, wf_ph p n -> render_ph e p = Some ([ph_creator p], doc_ph (se_of e) p).
+Proof. exact render_ph_spec. Qed.
+Print Assumptions C02_ph_display.
+Theorem C02_uh_display : forall e c u, wf_uh u -> render_uh e [c] u = doc_uh (se_of e) c u.
+Proof. exact render_uh_spec. Qed.
+Print Assumptions C02_uh_display.
+Theorem C02_eh_display : forall e h c x, wf_hdr h -> wf_eh x -> render_eh e h [c] x = Some (doc_eh (se_of e) c h x).
+Proof. exact render_eh_spec. Qed.
+Print Assumptions C02_eh_display.
+Theorem C02_mt_display : forall e h c x, wf_hdr h -> wf_mt x -> render_mt e h [c] x = Some (doc_mt (se_of e) c h x).
+Proof. exact render_mt_spec. Qed.
+Print Assumptions C02_mt_display.
+Theorem C02_lp_display : forall e h c x, wf_hdr h -> wf_lp x -> render_lp e h [c] x = Some (doc_lp (se_of e) c h x).
+Proof. exact render_lp_spec. Qed.
+Print Assumptions C02_lp_display.
+
+(* non-vacuity: three target partitions are all displayed, ids below 0x10000000 keep their zeros *)
+Example C02_example :
+  doc_lp {| se_comp_name := fun _ _ => None |} 79 {| h_ver := 1; h_sub := 0; h_comp := 8192 |}
+    {| l_part := 5; l_namelen := 0; l_count := 3; l_logid := 7; l_name := []; l_targets := [10; 11; 12]; l_pad := Some 0 |}
+  = [(L "Section Version", num 1); (L "Sub-section type", num 0); (L "Created by", str (L "2000"));
+     (L "Primary Partition ID", str (L "0x0005")); (L "Length of LP Name", str (L "0x00")); (L "Target LP Count", str (L "0x03"));
+     (L "Logical Partition Log ID", str (L "0x00000007")); (L "Primary Partition Name", str []);
+     (L "Target LP", JArr [str (L "0x000A"); str (L "0x000B"); str (L "0x000C")])].
+Proof. vm_compute. reflexivity. Qed.
